@@ -402,6 +402,33 @@ def r4_every_error(ctx):
     inner = [n for n in ast.walk(f) if isinstance(n, ast.For) and norm(n.iter) == 'err_node.elements']
     ele_write = any('Error Code' in ast.unparse(n) and 'Element' in ast.unparse(n) for n in inner)
     yield Ob('error_html:error_html.gen_seg prints element errors', ele_write, ctx.floc(f), '' if ele_write else 'element error block removed')
+    # ... and prints each of them: the condition under which an element error is written, evaluated over segment ids and
+    # message texts.  The one accepted omission is the repetition of a GS element error on the GE line.
+    ew = [c for n in inner for c in A.calls_in(n) if A.call_target(c) == ('self.fd', 'write') and 'Element' in ast.unparse(c)]
+    if ele_write and ew:
+        conds = A.path_condition(ew[0], f)
+
+        class _Seg(object):
+            _sa_model = True
+
+            def __init__(self, sid):
+                self.sid = sid
+
+            def get_seg_id(self):
+                return self.sid
+        bad = None
+        try:
+            for sid in ('GE', 'GS', 'NM1', 'IEA', 'SE'):
+                for msg in ('Data element "Date" (GS04) is invalid', 'value HIGGS BIGSTUFF is too long (NM109)', 'plain message', ''):
+                    for code in ('1', '5', '7', '8'):
+                        env = {'seg_data': _Seg(sid), 'err_str': msg, 'err_cde': code, 'bad_value': 'X', 'seg_id': sid}
+                        written = all(bool(A.ev(t, env)) == pol for t, pol in conds)
+                        if not written and not (sid == 'GE' and 'GS' in msg):
+                            bad = (sid, msg, code)
+        except A.NotClosed as e:
+            raise AnalysisError('error_html.gen_seg: the condition under which an element error is written cannot be evaluated (%s)' % e)
+        yield Ob('error_html:error_html.gen_seg prints every element error of the segment', bad is None, ctx.floc(f, ew[0]),
+                 '' if bad is None else 'an element error with code %s and message %r on a %s segment is left out of the report' % (bad[2], bad[1], bad[0]))
     # the line written carries the line number and the segment text
     seg_write = [c for c in A.calls_in(f) if A.call_target(c) == ('self.fd', 'write') and 'class="seg"' in ast.unparse(c)]
     if seg_write:
